@@ -731,7 +731,7 @@ Definition flying (t : rthread) : list resp :=
 Definition in_flight (s : cst) : list resp := flat_map flying (routers s).
 
 Definition resp_dec (a b : resp) : {a = b} + {a <> b}.
-Proof. decide equality; try apply N.eq_dec; apply Bool.bool_dec. Defined.
+Proof. decide equality; try apply N.eq_dec; decide equality. Defined.
 Definition cnt (x : resp) (l : list resp) : nat := count_occ resp_dec l x.
 
 Lemma cnt_app x l1 l2 : cnt x (l1 ++ l2) = cnt x l1 + cnt x l2.
@@ -1224,17 +1224,18 @@ Qed.
 (* ------------------------------------------------------------------ *)
 (* requests (get/set) are never taken for a response                   *)
 
-Lemma request_routed s i v :
+Lemma nonresponse_routed s r :
+  rreq r = true ->
   let k := length (routers s) in
-  let s' := c_run s [AArrive (request i v); ARouter k; ARouter k] in
-  chans s' = chans s /\ table s' = table s /\ ordinary s' = ordinary s ++ [request i v] /\
-  nth_error (routers s') k = Some {| r_iq := request i v; r_pc := RDone |}.
+  let s' := c_run s [AArrive r; ARouter k; ARouter k] in
+  chans s' = chans s /\ table s' = table s /\ ordinary s' = ordinary s ++ [r] /\
+  nth_error (routers s') k = Some {| r_iq := r; r_pc := RDone |}.
 Proof.
-  intros k s'. subst s'. rewrite !c_run_cons, c_run_nil, !step_router_eq.
-  set (s1 := c_step s (AArrive (request i v))).
-  set (t1 := {| r_iq := request i v; r_pc := RStart |}).
+  intros Hr k s'. subst s'. rewrite !c_run_cons, c_run_nil, !step_router_eq.
+  set (s1 := c_step s (AArrive r)).
+  set (t1 := {| r_iq := r; r_pc := RStart |}).
   assert (K1 : nth_error (routers s1) k = Some t1) by apply nth_error_snoc_new.
-  rewrite (router_step_start_req s1 k t1 K1 eq_refl eq_refl). set (s2 := set_pc s1 k ROrd).
+  rewrite (router_step_start_req s1 k t1 K1 eq_refl Hr). set (s2 := set_pc s1 k ROrd).
   assert (K2 : nth_error (routers s2) k = Some (with_pc ROrd t1)).
   { unfold s2. rewrite set_pc_routers. apply nth_error_upd_same. exact K1. }
   rewrite (router_step_ord s2 k _ K2 eq_refl).
